@@ -18,7 +18,7 @@ from __future__ import annotations
 
 import ast
 
-from core.inline_stmt import Inliner, _copy, _flip_empty, _is_docstring, _names_in, _recopy
+from core.inline_stmt import Inliner, _copy, _flip_empty, _is_docstring, _names_in, _recopy, _Rename
 from core.loader import FuncInfo, Repo, set_parents
 from core.types import Types
 
@@ -503,6 +503,100 @@ class DeepInliner(Inliner):
         body = [x for x in callee.node.body if not _is_docstring(x)]
         return len(body) == 1 and isinstance(body[0], ast.Return) and body[0].value is not None
 
+    def _gen_call_as_genexp(self, ctx: FuncInfo, call: ast.AST, origin: dict) -> ast.expr | None:
+        """`obj._pairs()` / `_pairs(x)` where the helper is a repo generator `for T in D: [if c:] yield E`  ->  `(E for T in D [if c])`
+        with the helper's parameters replaced by the (simple) arguments."""
+        if not isinstance(call, ast.Call) or any(isinstance(a, ast.Starred) for a in call.args) or any(k.arg is None for k in call.keywords):
+            return None
+        callee = self._resolve(ctx, call)
+        if callee is None or isinstance(callee.node, ast.Lambda) or callee.is_abstract:
+            return None
+        body = [x for x in callee.node.body if not _is_docstring(x)]
+        if len(body) != 1 or not isinstance(body[0], ast.For) or body[0].orelse:
+            return None
+        loop = body[0]
+        inner, ifs = loop.body, []
+        while len(inner) == 1 and isinstance(inner[0], ast.If) and not inner[0].orelse:
+            ifs.append(inner[0].test)
+            inner = inner[0].body
+        if not (len(inner) == 1 and isinstance(inner[0], ast.Expr) and isinstance(inner[0].value, ast.Yield) and inner[0].value.value is not None):
+            return None
+        a = callee.node.args
+        if a.vararg or a.kwarg:
+            return None
+        pos = [p_.arg for p_ in [*a.posonlyargs, *a.args]]
+        bind: dict[str, ast.expr] = {}
+        if callee.cls is not None and callee.outer is None and not callee.is_staticmethod and pos:
+            if not isinstance(call.func, ast.Attribute) or callee.is_classmethod:
+                return None
+            bind[pos.pop(0)] = call.func.value
+        if len(call.args) > len(pos):
+            return None
+        bind.update(dict(zip(pos, call.args)))
+        for k in call.keywords:
+            bind[k.arg] = k.value
+        if set(bind) != {p_.arg for p_ in [*a.posonlyargs, *a.args, *a.kwonlyargs]}:
+            return None
+        if not all(isinstance(v, (ast.Name, ast.Constant)) or (isinstance(v, ast.Attribute) and isinstance(v.value, ast.Name)) for v in bind.values()):
+            return None
+        stored = {x.id for x in ast.walk(loop) if isinstance(x, ast.Name) and isinstance(x.ctx, ast.Store)}
+        if stored & set(bind):
+            return None
+        ren = _Rename({}, dict(bind))
+        gen = ast.comprehension(target=ren.visit(_copy(loop.target, callee, origin)), iter=ren.visit(_copy(loop.iter, callee, origin)), ifs=[ren.visit(_copy(c, callee, origin)) for c in ifs], is_async=0)
+        new = ast.GeneratorExp(elt=ren.visit(_copy(inner[0].value.value, callee, origin)), generators=[gen])
+        self.inlined.append(callee.fq)
+        return _loc(new, call)
+
+    def _split_tuple_assign(self, s: ast.stmt) -> list[ast.stmt] | None:
+        """`a, b = (x, y)`  ->  `a = x; b = y`  (no target is read by the values)"""
+        if not (isinstance(s, ast.Assign) and len(s.targets) == 1 and isinstance(s.targets[0], (ast.Tuple, ast.List)) and isinstance(s.value, (ast.Tuple, ast.List))):
+            return None
+        ts, vs = s.targets[0].elts, s.value.elts
+        if len(ts) != len(vs) or any(isinstance(x, ast.Starred) for x in [*ts, *vs]) or not all(isinstance(t, ast.Name) for t in ts):
+            return None
+        names = {t.id for t in ts}
+        if len(names) != len(ts) or any(isinstance(x, ast.Name) and x.id in names for v in vs for x in ast.walk(v)):
+            return None
+        return [_loc(ast.Assign(targets=[t], value=v), s) for t, v in zip(ts, vs)]
+
+    def _hoist_ctor_receivers(self, ctx: FuncInfo, s: ast.stmt, taken: set[str]) -> list[ast.stmt]:
+        """`Helper(args).method(..)` in a simple statement  ->  `obj = Helper(args)` + `obj.method(..)` (the constructor is then
+        flattened like any `x = Helper(args)`)."""
+        if not isinstance(s, (ast.Expr, ast.Assign, ast.AnnAssign, ast.Return)) or getattr(s, "value", None) is None:
+            return [s]
+        pre: list[ast.stmt] = []
+        outer = self
+
+        def is_ctor(c: ast.AST) -> bool:
+            if not isinstance(c, ast.Call):
+                return False
+            c_ctx, orig = getattr(c, "_src", None) or (ctx, c)
+            if not isinstance(orig, ast.Call):
+                return False
+            try:
+                return outer.T.ctor_class(c_ctx, orig) is not None
+            except Exception:  # noqa: BLE001
+                return False
+
+        def visit(e: ast.AST) -> ast.AST:
+            if isinstance(e, (ast.Lambda, ast.IfExp, ast.BoolOp, ast.ListComp, ast.SetComp, ast.GeneratorExp, ast.DictComp)):
+                return e
+            for fld, val in ast.iter_fields(e):
+                if isinstance(val, ast.AST):
+                    setattr(e, fld, visit(val))
+                elif isinstance(val, list):
+                    setattr(e, fld, [visit(x) if isinstance(x, ast.AST) else x for x in val])
+            if isinstance(e, ast.Attribute) and is_ctor(e.value):
+                cls_name = e.value.func.id if isinstance(e.value.func, ast.Name) else (e.value.func.attr if isinstance(e.value.func, ast.Attribute) else "object")
+                name = outer._fresh_tmp(f"obj__{cls_name.strip('_').lower()}", taken)
+                pre.append(_loc(ast.Assign(targets=[ast.Name(id=name, ctx=ast.Store())], value=e.value), e.value))
+                e.value = _loc(ast.Name(id=name, ctx=ast.Load()), e.value)
+            return e
+
+        s.value = visit(s.value)
+        return pre + [s]
+
     def _unroll(self, s: ast.stmt, taken: set[str]) -> list[ast.stmt] | None:
         """`T = {k: v for x in D if c}`  ->  `T = {}` + loop storing `T[k] = v`."""
         if isinstance(s, ast.Assign) and len(s.targets) == 1 and isinstance(s.targets[0], ast.Name):
@@ -566,6 +660,28 @@ class DeepInliner(Inliner):
                 self.__dict__.setdefault("local_defs", {})[s.name] = s
                 out.append(s)
                 continue
+            split = self._split_tuple_assign(s)
+            if split is not None:
+                queue = split + queue
+                continue
+            recv = self._hoist_ctor_receivers(ctx, s, taken)
+            if len(recv) > 1:
+                queue = recv + queue
+                continue
+            # dict(<generator helper>(..)) / dict(obj.<generator method>()): the generator as the generator expression it is
+            if isinstance(s, (ast.Assign, ast.AnnAssign)) and isinstance(s.value, ast.Call) and isinstance(s.value.func, ast.Name) and s.value.func.id == "dict" and len(s.value.args) == 1 and not s.value.keywords and isinstance(s.value.args[0], ast.Call):
+                ge = self._gen_call_as_genexp(ctx, s.value.args[0], origin)
+                if ge is not None:
+                    s.value.args[0] = ge
+            # `kwargs["labels"] = dict(<pairs>)` / `return dict(<pairs>)`: the mapping gets a local of its own (and is unrolled there)
+            if isinstance(s, (ast.Assign, ast.Return)) and s.value is not None and isinstance(_as_dictcomp(s.value), ast.DictComp) and not isinstance(s.value, ast.DictComp):
+                plain = isinstance(s, ast.Assign) and len(s.targets) == 1 and isinstance(s.targets[0], ast.Name)
+                if not plain:
+                    name = self._fresh_tmp("mapping__comp", taken)
+                    pre_ = _loc(ast.Assign(targets=[ast.Name(id=name, ctx=ast.Store())], value=s.value), s.value)
+                    s.value = _loc(ast.Name(id=name, ctx=ast.Load()), s.value)
+                    queue = [pre_, s] + queue
+                    continue
             hoisted = self._hoist(ctx, s, taken, stack)
             if len(hoisted) > 1:
                 queue = hoisted + queue
@@ -897,7 +1013,57 @@ def unroll_literal_loops(fn: ast.FunctionDef, owner: FuncInfo | None = None, rep
             return [ast.Tuple(elts=[k, v], ctx=ast.Load()) for k, v in zip(lit.keys, lit.values)]
         if how == "self" and isinstance(lit, (ast.List, ast.Tuple)) and lit.elts and len(lit.elts) <= 8 and not any(isinstance(x, ast.Starred) for x in lit.elts) and all(isinstance(x, (ast.Tuple, ast.Constant)) or record_fields(x) is not None for x in lit.elts):
             return list(lit.elts)
+        if how == "self" and isinstance(it, ast.Call):
+            return yielded_constants(it)
         return None
+
+    def yielded_constants(call: ast.Call):
+        """`self._translators()` where the helper is a repo generator whose body is a straight line of `yield <constant / tuple of
+        constants, names and attributes of self>`: the yielded values (with the helper's self replaced by the receiver)"""
+        if repo is None or owner is None or call.args or call.keywords:
+            return None
+        from .common import types_of
+
+        ctx, orig = getattr(call, "_src", (owner, call))
+        if not isinstance(orig, ast.Call):
+            return None
+        try:
+            cs, how_ = types_of(repo).callees(ctx, orig, byname_fallback=False)
+        except Exception:  # noqa: BLE001
+            return None
+        cs = [c for c in cs if not c.is_abstract]
+        if len(cs) != 1 or how_ != "repo" or isinstance(cs[0].node, ast.Lambda):
+            return None
+        f = cs[0]
+        body = [s_ for s_ in f.node.body if not _is_docstring(s_)]
+        a = f.node.args
+        params = [p.arg for p in [*a.posonlyargs, *a.args, *a.kwonlyargs]]
+        if a.vararg or a.kwarg or len(params) > 1 or not body or len(body) > 8:
+            return None
+        selfname = params[0] if params else None
+        if selfname is not None and not (f.cls is not None and not f.is_staticmethod and isinstance(call.func, ast.Attribute)):
+            return None
+        out = []
+        for st in body:
+            if not (isinstance(st, ast.Expr) and isinstance(st.value, ast.Yield) and st.value.value is not None):
+                return None
+            v = st.value.value
+            parts = v.elts if isinstance(v, ast.Tuple) else [v]
+            for x in parts:
+                ok = isinstance(x, ast.Constant) or (isinstance(x, ast.Name) and x.id != selfname) or (isinstance(x, ast.Attribute) and isinstance(x.value, ast.Name))
+                if not ok:
+                    return None
+            cp = _copy(v, f, {})
+            if selfname is not None:
+                recv = call.func.value
+
+                class S(ast.NodeTransformer):
+                    def visit_Name(self, node):  # noqa: N802
+                        return _recopy(recv) if node.id == selfname else node
+
+                cp = S().visit(cp)
+            out.append(cp)
+        return out
 
     def record_fields(call: ast.AST) -> dict | None:
         return record_fields_of(repo, owner.module if owner is not None else None, call)
@@ -929,7 +1095,41 @@ def unroll_literal_loops(fn: ast.FunctionDef, owner: FuncInfo | None = None, rep
         if any(isinstance(x, ast.Name) and x.id in names and isinstance(x.ctx, (ast.Store, ast.Del)) for st in loop.body for x in ast.walk(st)):
             continue
         new_body: list[ast.stmt] = []
-        for env in envs:
+        # locals assigned in the body get their own name in every copy but the last (what follows the loop sees the last values)
+        assigned = sorted({x.id for st in loop.body for x in ast.walk(st) if isinstance(x, ast.Name) and isinstance(x.ctx, ast.Store)})
+        # a name that may be read before it is assigned in the body carries a value from one round to the next: it keeps its name
+        carried: set[str] = set()
+
+        def scan(stmts, defined: set[str]) -> set[str]:
+            for st in stmts:
+                if isinstance(st, ast.If):
+                    carried.update(({x.id for x in ast.walk(st.test) if isinstance(x, ast.Name)} & set(assigned)) - defined)
+                    d1, d2 = scan(st.body, set(defined)), scan(st.orelse, set(defined))
+                    defined = d1 & d2
+                    continue
+                if isinstance(st, (ast.Assign, ast.AnnAssign)) and st.value is not None:
+                    carried.update(({x.id for x in ast.walk(st.value) if isinstance(x, ast.Name)} & set(assigned)) - defined)
+                    tgts = st.targets if isinstance(st, ast.Assign) else [st.target]
+                    for t in tgts:
+                        carried.update(({x.id for x in ast.walk(t) if isinstance(x, ast.Name) and isinstance(x.ctx, ast.Load)} & set(assigned)) - defined)
+                    defined = defined | {x.id for t in tgts for x in ast.walk(t) if isinstance(x, ast.Name) and isinstance(x.ctx, ast.Store)}
+                    continue
+                reads = {x.id for x in ast.walk(st) if isinstance(x, ast.Name) and isinstance(x.ctx, ast.Load)} | ({st.target.id} if isinstance(st, ast.AugAssign) and isinstance(st.target, ast.Name) else set())
+                carried.update((reads & set(assigned)) - defined)
+            return defined
+
+        scan(loop.body, set())
+        assigned = [a_ for a_ in assigned if a_ not in carried]
+        taken_ = _names_in(fn)
+        for copy_no, env in enumerate(envs):
+            ren: dict[str, str] = {}
+            if copy_no < len(envs) - 1:
+                for nm in assigned:
+                    k_ = copy_no + 1
+                    while f"{nm}__{k_}" in taken_:
+                        k_ += 1
+                    ren[nm] = f"{nm}__{k_}"
+                    taken_.add(ren[nm])
             class Sub(ast.NodeTransformer):
                 def visit_Name(self, node, env=env):  # noqa: N802
                     if isinstance(node.ctx, ast.Load) and node.id in env:
@@ -961,7 +1161,16 @@ def unroll_literal_loops(fn: ast.FunctionDef, owner: FuncInfo | None = None, rep
                         return _loc(ast.Attribute(value=node.args[0], attr=node.args[1].value, ctx=ast.Load()), node)
                     return node
 
-            new_body += [Sub().visit(_recopy(st)) for st in loop.body]
+            class Ren(ast.NodeTransformer):
+                def visit_Name(self, node, ren=ren):  # noqa: N802
+                    if node.id in ren:
+                        node.id = ren[node.id]
+                    return node
+
+                def visit_Lambda(self, node):  # noqa: N802
+                    return node
+
+            new_body += [Ren().visit(Sub().visit(_recopy(st))) for st in loop.body]
         par = getattr(loop, "_parent", None)
         done = False
         for fld in ("body", "orelse", "finalbody"):
